@@ -17,16 +17,17 @@
      tree_guesses_ok     C01's [guesses_ok] for the calls of the tree: metadata sections written in a UTF-16/32
                          family encoding are such that the reader's newline guess is right; not needed when all
                          encodings are ascii / latin-1 / utf-8 / utf-8-sig spellings (C05_full_aligned)
-     tree_metas_encoded  C01's [metas_encoded] for the calls of the tree: at every metadata section an encoding is in
-                         force (its own, or an enclosing file's / change's / the main section's).  ADDED with the fix of
+     tree_metas_oracle_ok  C01's [metas_oracle_ok] for the calls of the tree.  ADDED with the fix of
                          DiffXWriter.write_meta (`if not (encoding or self._cur_encoding): content =
                          content.encode('ascii')`): a tree without any encoding (the DOM default is encoding None)
                          used to fail to serialise as soon as it has metadata (TypeError, so [dom_write t = Ok b]
-                         excluded it) and now writes the JSON as bytes; the reader hands bytes to json.loads, which
-                         [tree_oracle_ok] (the JSON text) and DomSpec.expected_view (the text path) do not describe:
-                         without the hypothesis the theorems are false for such trees (see props/C01_sequence.v,
-                         C01_round_trip_unencoded_refuted).  It holds whenever the main section has an encoding
-                         (C05_tree_metas_encoded_main).
+                         excluded it) and now writes the JSON as ASCII bytes; the reader hands bytes to json.loads.
+                         The hypothesis: at every metadata section an encoding is in force (its own, or an enclosing
+                         file's / change's / the main section's), OR the oracle answers for the bytes,
+                         loads (dumps j ++ b"\n") = j.  Without it the theorems are false for such trees
+                         (props/C01_sequence.v, C01_round_trip_unencoded_refuted); with it they cover them
+                         (C05_full_ex3).  Nothing is required when the main section has an encoding
+                         (C05_tree_metas_oracle_main).
      size                the output is at most sys.maxsize bytes.
    line_endings / mimetype / type / format / non-empty content need no hypothesis: they follow from the tree having
    serialised (C05_call_good_of_accepted). *)
@@ -52,14 +53,13 @@ Print Assumptions C05_run_all_iff_accepted.
 (* one record of C01 projects to the view of C05: same id (the writer's level is the DOM reader's cursor),
    same options, same payload *)
 Theorem C05_view_of_record : forall s s' cur c line,
-  WriterFacts.reachable s -> cur_level s = cur_dots cur -> call_good c -> meta_enc_b s c = true ->
-  do_call c s = (s', Ok tt) ->
+  WriterFacts.reachable s -> cur_level s = cur_dots cur -> call_good c -> do_call c s = (s', Ok tt) ->
   rec_view (expected_record_of s line c) = expected_view s cur c.
 Proof. intros s s' cur c line Hr Hl. apply DomCompose.view_of_record. split; assumption. Qed.
 Print Assumptions C05_view_of_record.
 
 Theorem C05_views_of_records : forall enc0 ver s0 cs,
-  writer_init enc0 ver = (s0, Ok tt) -> enc_ok enc0 -> Forall call_good cs -> accepted s0 cs -> metas_encoded s0 cs ->
+  writer_init enc0 ver = (s0, Ok tt) -> enc_ok enc0 -> Forall call_good cs -> accepted s0 cs ->
   map rec_view (main_record enc0 ver :: expected_records s0 1 cs) = main_view enc0 ver :: expected_views s0 AtMain cs.
 Proof. exact DomCompose.views_of_records_main. Qed.
 Print Assumptions C05_views_of_records.
@@ -115,7 +115,7 @@ Proof. reflexivity. Qed.
 (* ---- C01 as the hypothesis of C05 ---- *)
 Theorem C05_reader_returns_expected : forall orc t b,
   tree_encs_ok t = true -> tree_indents_ok t = true -> dom_write t = Ok b ->
-  tree_oracle_ok orc t -> tree_metas_encoded t -> tree_guesses_ok t -> (Z.of_nat (length b) <= sys_maxsize)%Z ->
+  tree_oracle_ok orc t -> tree_metas_oracle_ok orc t -> tree_guesses_ok t -> (Z.of_nat (length b) <= sys_maxsize)%Z ->
   reader_returns_expected orc t b.
 Proof. exact DomCompose.reader_returns_expected_tree. Qed.
 Print Assumptions C05_reader_returns_expected.
@@ -124,7 +124,7 @@ Print Assumptions C05_reader_returns_expected.
 Theorem C05_full : forall orc t b,
   typed_tree t = true -> tree_encs_ok t = true -> tree_indents_ok t = true ->
   dom_write t = Ok b ->
-  tree_oracle_ok orc t -> tree_metas_encoded t -> tree_guesses_ok t ->
+  tree_oracle_ok orc t -> tree_metas_oracle_ok orc t -> tree_guesses_ok t ->
   (Z.of_nat (length b) <= sys_maxsize)%Z ->
   dom_read orc b = Ok (normalise t).
 Proof. exact DomCompose.C05_full. Qed.
@@ -133,7 +133,7 @@ Print Assumptions C05_full.
 Theorem C05_full_aligned : forall orc t b,
   typed_tree t = true -> tree_encs_aligned t = true -> tree_indents_ok t = true ->
   dom_write t = Ok b ->
-  tree_oracle_ok orc t -> tree_metas_encoded t ->
+  tree_oracle_ok orc t -> tree_metas_oracle_ok orc t ->
   (Z.of_nat (length b) <= sys_maxsize)%Z ->
   dom_read orc b = Ok (normalise t).
 Proof. exact DomCompose.C05_full_aligned. Qed.
@@ -148,14 +148,15 @@ Theorem C05_tree_guesses_ok_def : forall t,
   (forall s0 cs, writer_init (tree_encoding t) (tree_version t) = (s0, Ok tt) -> tree_calls t = Ok cs -> guesses_ok s0 cs).
 Proof. intros; reflexivity. Qed.
 
-Theorem C05_tree_metas_encoded_def : forall t,
-  tree_metas_encoded t <->
-  (forall s0 cs, writer_init (tree_encoding t) (tree_version t) = (s0, Ok tt) -> tree_calls t = Ok cs -> metas_encoded s0 cs).
+Theorem C05_tree_metas_oracle_ok_def : forall orc t,
+  tree_metas_oracle_ok orc t <->
+  (forall s0 cs, writer_init (tree_encoding t) (tree_version t) = (s0, Ok tt) -> tree_calls t = Ok cs ->
+                 metas_oracle_ok orc s0 cs).
 Proof. intros; reflexivity. Qed.
-(* ... it holds when the main section declares an encoding *)
-Theorem C05_tree_metas_encoded_main : forall t, wv_truthy (tree_encoding t) = true -> tree_metas_encoded t.
-Proof. exact DomCompose.tree_metas_encoded_main. Qed.
-Print Assumptions C05_tree_metas_encoded_main.
+(* ... nothing is required when the main section declares an encoding *)
+Theorem C05_tree_metas_oracle_main : forall orc t, wv_truthy (tree_encoding t) = true -> tree_metas_oracle_ok orc t.
+Proof. exact DomCompose.tree_metas_oracle_main. Qed.
+Print Assumptions C05_tree_metas_oracle_main.
 
 (* section by section: json.loads (json.dumps d ++ "\n") = d for the dict d of every metadata section *)
 Theorem C05_tree_oracle_of_metas : forall orc t,
@@ -173,7 +174,7 @@ Print Assumptions C05_tree_guesses_aligned.
 (* ---- instances: every hypothesis holds (each discharged by computation in DomCompose.v) ---- *)
 Example C05_full_ex_hypotheses :
   typed_tree ex_tree = true /\ tree_encs_aligned ex_tree = true /\ tree_indents_ok ex_tree = true /\
-  dom_write ex_tree = Ok ex_bytes /\ tree_oracle_ok ex_orc ex_tree /\ tree_metas_encoded ex_tree /\
+  dom_write ex_tree = Ok ex_bytes /\ tree_oracle_ok ex_orc ex_tree /\ tree_metas_oracle_ok ex_orc ex_tree /\
   (Z.of_nat (length ex_bytes) <= sys_maxsize)%Z.
 Proof.
   exact (conj ex_typed (conj ex_encs_aligned (conj ex_indents (conj ex_write (conj ex_oracle (conj ex_metas ex_size)))))).
@@ -185,10 +186,25 @@ Proof. exact DomCompose.ex_C05_full. Qed.
 Example C05_full_ex2_hypotheses :
   typed_tree ex_tree2 = true /\ tree_encs_ok ex_tree2 = true /\ tree_encs_aligned ex_tree2 = false /\
   tree_indents_ok ex_tree2 = true /\ dom_write ex_tree2 = Ok ex_bytes2 /\ tree_oracle_ok ex_orc2 ex_tree2 /\
-  tree_metas_encoded ex_tree2 /\ tree_guesses_ok ex_tree2 /\ (Z.of_nat (length ex_bytes2) <= sys_maxsize)%Z.
+  tree_metas_oracle_ok ex_orc2 ex_tree2 /\ tree_guesses_ok ex_tree2 /\ (Z.of_nat (length ex_bytes2) <= sys_maxsize)%Z.
 Proof.
   exact (conj ex2_typed (conj ex2_encs (conj ex2_not_aligned (conj ex2_indents (conj (proj1 ex2_write)
         (conj ex2_oracle (conj ex2_metas (conj ex2_guesses ex2_size)))))))).
 Qed.
 Example C05_full_ex2 : dom_read ex_orc2 ex_bytes2 = Ok (normalise ex_tree2).
 Proof. exact DomCompose.ex2_C05_full. Qed.
+
+(* a tree without any encoding that has metadata (the path the fix of write_meta opened): it serialises to these
+   bytes, [tree_metas_encoded] fails, and with an oracle answering for the bytes all hypotheses hold *)
+Example C05_full_ex3_hypotheses :
+  typed_tree ex_tree3 = true /\ tree_encs_ok ex_tree3 = true /\ tree_indents_ok ex_tree3 = true /\
+  dom_write ex_tree3 = Ok ex_bytes3 /\ tree_oracle_ok ex_orc3 ex_tree3 /\ ~ tree_metas_encoded ex_tree3 /\
+  tree_metas_oracle_ok ex_orc3 ex_tree3 /\ tree_guesses_ok ex_tree3 /\ (Z.of_nat (length ex_bytes3) <= sys_maxsize)%Z.
+Proof. exact DomCompose.ex3_hypotheses. Qed.
+Example C05_full_ex3 :
+  ex_bytes3 = B "#diffx: version=1.0" ++ [x0a] ++ B "#.meta: format=json, length=15" ++ [x0a] ++
+              B "{" ++ [x0a] ++ B "    ""k"": 1" ++ [x0a] ++ B "}" ++ [x0a] /\
+  dom_read ex_orc3 ex_bytes3 = Ok (normalise ex_tree3).
+Proof.
+  split; [reflexivity|]. destruct DomCompose.ex3_C06_full as (t' & H1 & -> & _). exact H1.
+Qed.
